@@ -104,7 +104,15 @@ def _zero_point_error(case, w):
         s1 = UnivariateSpline(grid, pert, s=0)
         c = float(s0(w))
         if c > 0:
-            out = max(out, abs(float(s1(w)) - c) / c)
+            # (i) the spline carries the error of the zero point into its neighbourhood;
+            # (ii) C(t) = inverse FFT of the 2nt-point spectrum is kept on t >= 0 only (nt
+            # points) and Hermitian-extended again by the rate code: of the constant offset
+            # Delta*h/2pi that the zero-point error Delta puts on C(t), the one extended point
+            # t = -nt*dt is lost, which returns as a ripple (-1)^k Delta/(2nt) on every grid
+            # value of the transformed function (measured on the clean tree: 2.6369e-06 for
+            # Delta/(2nt) = 2.6575e-06, all k).
+            ripple = abs(float(pert[60] - exact[60])) / (2.0 * nt)
+            out = max(out, (abs(float(s1(w)) - c) + ripple) / c)
     return out
 
 
